@@ -83,6 +83,10 @@ def check_run(r, cfg):
     if "Probe" in [x for ses in cfg["simulation"]["sessions"] for x in ses.get("events", [])]:
         if collections.Counter(id(e[1]) for e in EV if e[0] == "h_ao") != collections.Counter(id(l) for l in ords):
             raise V_("Simulator._trigger_event_after_order", "C13 after-order hook exactly once per accepted order")
+        for b_, a_, fnm, what in (("h_bo", "h_ao", "Simulator._trigger_event_before_order", "order"), ("h_bc", "h_ac", "Simulator._trigger_event_before_cancel", "cancel")):
+            seq = [e[0] for e in EV if e[0] in (b_, a_)]
+            if seq != [b_, a_] * (len(seq) // 2) or len(seq) % 2:
+                raise V_(fnm, f"C13 before-{what} hook exactly once before each accepted {what} (normal and high-frequency agents alike), after-{what} hook right after it", seq[:12])
         if collections.Counter(id(e[1]) for e in EV if e[0] == "h_ac") != collections.Counter(id(l) for l in cans):
             raise V_("Simulator._trigger_event_after_cancel", "C13 after-cancel hook exactly once per accepted cancel")
         if collections.Counter(id(e[1]) for e in EV if e[0] == "h_ae") != collections.Counter(id(l) for l in fills):
@@ -216,6 +220,19 @@ def _run(seed):
     events = ["Probe"] + [e for e in ("PriceLimit", "Halt", "Mistake", "FShock") if rng.random() < 0.25]
     r, cfg = sim.run_seed(seed, events=tuple(events), long_steps=(seed % 7 == 0))
     check_run(r, cfg)
+    if seed % 4 == 1:
+        check_run_without_logger(cfg, seed)
+
+
+def check_run_without_logger(cfg, seed):
+    """the same configuration on a runner built WITHOUT a logger: the hooks of the probe event must fire at the same occasions (C13 does not depend on logging)"""
+    with_logger = [e[:1] + tuple(e[1:2] if e[0] in ("h_bm", "h_am", "h_bs", "h_as") else ()) + tuple(e[2:3] if e[0] in ("h_bm", "h_am") else ()) for e in sim.EV if e[0].startswith("h_")]
+    r2 = sim.run_cfg(cfg, seed, logger=None)
+    without = [e[:1] + tuple(e[1:2] if e[0] in ("h_bm", "h_am", "h_bs", "h_as") else ()) + tuple(e[2:3] if e[0] in ("h_bm", "h_am") else ()) for e in sim.EV if e[0].startswith("h_")]
+    if with_logger != without:
+        k = next((i for i, (a, b) in enumerate(zip(with_logger, without)) if a != b), min(len(with_logger), len(without)))
+        raise V_("Simulator._trigger_event_after_step_for_market" if any(x[0] == "h_am" for x in with_logger[k:k + 1]) else "SequentialRunner._run",
+                 "C13 the hooks fire at the same occasions whether or not the runner has a logger", dict(position=k, with_logger=with_logger[k:k + 3], without_logger=without[k:k + 3]))
 
 
 def search(seed, tier, obligation, hints):
